@@ -186,9 +186,36 @@ def check(facts):
                         if fname not in ("invert", "negate") or fi >= len(a.get("ops") or []):
                             continue
                         op = a["ops"][fi]
-                        if is_flag(op):
-                            uses += 1
-                        elif b.const_of_operand(op) == 0 and any(x in b.reach_from(g) for g in guarded):
+
+                        def leaves(o, at, depth=0):
+                            """(operand, block) pairs the field's value can come from: through plain copies and through the
+                            components of a tuple built on several paths (`let (invert, cps) = if .. {(false, ..)} else {(negate, ..)}`)"""
+                            if o.get("k") not in ("copy", "move") or depth > 6 or is_flag(o):
+                                return [(o, at)]
+                            l_ = o["pl"]["l"]
+                            pr_ = o["pl"]["p"]
+                            ds_ = b.defs().get(l_, [])
+                            if not ds_ or any(d_[2] != "assign" for d_ in ds_):
+                                return [(o, at)]
+                            out_ = []
+                            for d_ in ds_:
+                                rv_ = d_[3]["rv"]
+                                if not pr_ and rv_["k"] == "use":
+                                    out_ += leaves(rv_["op"], d_[0], depth + 1)
+                                elif len(pr_) == 1 and isinstance(pr_[0], dict) and str(pr_[0].get("f", "")).isdigit() and rv_["k"] == "agg" \
+                                        and rv_.get("ak") == "tuple" and int(pr_[0]["f"]) < len(rv_.get("ops") or []):
+                                    out_ += leaves(rv_["ops"][int(pr_[0]["f"])], d_[0], depth + 1)
+                                else:
+                                    return [(o, at)]
+                            return out_
+                        okf = True
+                        for lo, lb in leaves(op, x):
+                            if is_flag(lo):
+                                continue
+                            if b.const_of_operand(lo) == 0 and any(lb in b.reach_from(g) for g in guarded):
+                                continue
+                            okf = False
+                        if okf:
                             uses += 1
                         else:
                             bad.append((st["line"], "%s::%s.%s" % (a.get("adt", "?"), a.get("variant", ""), fname)))
